@@ -17,6 +17,18 @@ var commonAssumptions = []string{
 }
 
 var propMeta = map[string]PropMeta{
+	"C03": {
+		NotCovered: "The MCP schema of result payloads beyond the envelope and 'list results are arrays'; parameter-shape contracts for prompts/get, resources/read, subscribe, completion (same pattern as tools/call, not yet written); the legacy SSE and stdio wrappers' envelopes; that a 2xx body is non-empty (only the status is modelled).",
+		Assumptions: append([]string{"net/http: the first WriteHeader/http.Error fixes the status, a Write without it sends 200; user handlers and middlewares return either a message or an error"}, commonAssumptions...),
+	},
+	"C04": {
+		NotCovered: "Uniqueness and entropy of issued ids (crypto/rand and hex encoding are library facts), the one-minute expiry sweep, sessions racing on one id, and 'the answer to a request does not depend on earlier requests' in stateless mode beyond 'no id issued or required'.",
+		Assumptions: append([]string{"the sessionManager interface satisfies its contract (getSession: membership, createSession: adds exactly one fresh id, terminateSession: removes exactly that id); it is checked separately for internal/session where in reach"}, commonAssumptions...),
+	},
+	"C11": {
+		NotCovered: "Interleavings of concurrent sends with the registration beyond the lock discipline; that the client really receives the events (C09/C05).",
+		Assumptions: append([]string{"at each acquisition of getSSEConnectionsLock the table is arbitrary; postconditions are relative to that state (atlock)"}, commonAssumptions...),
+	},
 	"C09": {
 		NotCovered: "Systematic exploration of interleavings and pipe-buffer boundaries; the shape of a frame for every payload (it rests on json.Marshal emitting no raw newline); the POST-SSE response stream, whose writer is confined to the request's goroutine.",
 		Assumptions: append([]string{"holding the stream's lock during all writes of a frame is sufficient for frames not to interleave; json.Marshal output contains no raw LF/CR"}, commonAssumptions...),
